@@ -10,10 +10,10 @@ Ltac split_andb :=
          end.
 
 (* ---------- ports ---------- *)
-Lemma cmp_port_refl x p : wf_port p = true -> cmp_port x x p p = Accept.
+Lemma cmp_port_refl x p : cmp_port x x p p = Accept.
 Proof.
-  unfold wf_port, cmp_port. intro H.
-  rewrite !oname_eqb_refl, dir_eqb_refl, eqb_reflx, H, Nat.eqb_refl, ctx_eqb_refl. reflexivity.
+  unfold cmp_port.
+  rewrite !oname_eqb_refl, dir_eqb_refl, eqb_reflx, Nat.eqb_refl, ctx_eqb_refl. reflexivity.
 Qed.
 
 (* ---------- the assignment pattern ---------- *)
@@ -24,6 +24,7 @@ Proof.
   rewrite IH. apply orb_true_r.
 Qed.
 
+Definition is_wild (c : N) : bool := N.eqb c 42 || N.eqb c 63.
 Lemma glob_prefix pre : forallb (fun c => negb (is_wild c)) pre = true ->
   forall v, glob (pre ++ [42%N]) v = starts_with pre v.
 Proof.
@@ -73,34 +74,26 @@ Proof.
 Qed.
 
 Definition asg_ok (i : inst) : Prop :=
-  match i_name i with
-  | Some n => starts_with asg_prefix n = true -> exists w, asg_width n = Some w
-  | None => False
-  end.
+  match i_name i with Some _ => True | None => False end.
 
 Lemma wf_inst_asg_ok i : wf_inst i = true -> asg_ok i.
 Proof.
   unfold wf_inst, asg_ok. intro H. apply andb_true_iff in H as [_ H].
-  destruct (i_name i) as [n|]; [|discriminate]. intro Hs. rewrite Hs in H.
-  destruct (asg_width n) as [w|]; [exists w; reflexivity|discriminate].
+  destruct (i_name i) as [n|]; [exact I|discriminate].
 Qed.
 
-Lemma count_widths_ok l : (forall i, In i l -> asg_ok i) ->
-  forall d, NoDup (map fst d) ->
-  exists d', count_widths l d = Some d' /\ NoDup (map fst d').
+Lemma count_widths_ok l : forall d, NoDup (map fst d) -> NoDup (map fst (count_widths l d)).
 Proof.
-  induction l as [|i l IH]; intros Hl d Hd; cbn [count_widths]; [exists d; split; [reflexivity|assumption]|].
-  assert (Hi : asg_ok i) by (apply Hl; left; reflexivity).
-  assert (Hl' : forall j, In j l -> asg_ok j) by (intros; apply Hl; right; assumption).
-  unfold scan_match. unfold asg_ok in Hi. destruct (i_name i) as [n|]; [|contradiction].
-  rewrite asg_pattern_prefix. destruct (starts_with asg_prefix n) eqn:E; [|apply IH; assumption].
-  destruct (Hi eq_refl) as [w ->]. apply IH; [assumption|apply incr_nodup; assumption].
+  induction l as [|i l IH]; intros d Hd; cbn [count_widths]; [assumption|].
+  destruct (scan_match i_name true asg_pattern i); [|apply IH; assumption].
+  destruct (asg_class (i_name i)); apply IH; [apply incr_nodup|]; assumption.
 Qed.
 
-Lemma cmp_assign_refl d : (forall i, In i (d_insts d) -> asg_ok i) -> cmp_assign d d = Accept.
+Lemma cmp_assign_refl d : cmp_assign d d = Accept.
 Proof.
-  intro H. unfold cmp_assign.
-  destruct (count_widths_ok (d_insts d) H [] (NoDup_nil _)) as [cd [-> Hnd]].
+  unfold cmp_assign. cbv zeta.
+  pose proof (count_widths_ok (d_insts d) [] (NoDup_nil _)) as Hnd.
+  set (cd := count_widths (d_insts d) []) in *.
   replace (forallb _ cd) with true; [reflexivity|]. symmetry. apply forallb_forall.
   intros [k n] Hin. cbn. rewrite (sassoc_in_nodup cd k n Hnd Hin). apply Nat.eqb_refl.
 Qed.
@@ -117,28 +110,20 @@ Qed.
 Lemma inner_equiv_refl b q x : inner_equiv b q x b q x = Accept.
 Proof. unfold inner_equiv. rewrite Nat.eqb_refl, oname_eqb_refl, ctx_eqb_refl. reflexivity. Qed.
 
-Lemma inst_equiv_refl n r x q b :
-  (starts_with asg_prefix n = true -> exists w, asg_width n = Some w) ->
-  inst_equiv (mkopin (Some n) r (Some x) q b) (mkopin (Some n) r (Some x) q b) = Accept.
+Lemma inst_equiv_refl o : inst_equiv o o = Accept.
 Proof.
-  intro H. unfold inst_equiv. cbn [op_inst op_ref op_parent fst snd].
-  rewrite !oname_eqb_refl. cbn [andb check].
-  destruct (starts_with asg_prefix n) eqn:E.
-  - destruct (H eq_refl) as [w ->]. rewrite str_eqb_refl. reflexivity.
-  - rewrite str_eqb_refl. reflexivity.
+  unfold inst_equiv. rewrite !oname_eqb_refl. cbn [andb check].
+  destruct (asg_class (op_inst o)); [rewrite str_eqb_refl|]; reflexivity.
 Qed.
 
 Lemma cmp_pin_refl x io p :
   (forall i, In i io -> asg_ok i) -> wf_pin io p = true -> cmp_pin x x io io p p = Accept.
 Proof.
-  intros Hio Hp. destruct p as [q b|[n|] q b| | |]; cbn in Hp; try discriminate.
+  intros Hio Hp. destruct p as [q b|[n|] q b| | | |]; cbn in Hp; try discriminate.
   - unfold cmp_pin. cbn. apply inner_equiv_refl.
   - unfold cmp_pin. cbn. destruct (find (has_name i_name n) io) as [i|] eqn:Ef; [|discriminate].
     destruct (i_ref i) as [r|]; [|discriminate].
-    apply find_has_name_some in Ef as [Hin Hn].
-    rewrite inst_equiv_refl.
-    + cbn. apply inner_equiv_refl.
-    + specialize (Hio i Hin). unfold asg_ok in Hio. rewrite Hn in Hio. assumption.
+    rewrite inst_equiv_refl. cbn. apply inner_equiv_refl.
 Qed.
 
 Lemma zip_pins_refl x io w :
@@ -151,16 +136,16 @@ Qed.
 (* ---------- the key of a well-formed pin: read off the pin designator ---------- *)
 Definition raw_key (p : pinref) : outcome + pkey :=
   match p with
-  | PIn q b => inr (false, None, q, b)
-  | POut n q b | PDang n _ _ q b =>
-    match inst_key n with inl e => inl e | inr k => inr (true, k, q, b) end
-  | PLoose => inl AttrErr
+  | PIn q b => inr (false, None, q, Some b)
+  | POut n q b | PDang n _ _ q b => inr (true, inst_key n, q, Some b)
+  | PAnon _ _ q b => inr (true, None, q, Some b)
+  | PLoose => inr (false, None, None, None)
   | PForeign => inl Ill
   end.
 
 Lemma pin_key_raw x io p : wf_pin io p = true -> pin_key x io p = raw_key p.
 Proof.
-  destruct p as [q b|[n|] q b| | |]; cbn [wf_pin]; try discriminate; intro H; [reflexivity|].
+  destruct p as [q b|[n|] q b| | | |]; cbn [wf_pin]; try discriminate; intro H; [reflexivity|].
   unfold pin_key. cbn [resolve].
   destruct (find (has_name i_name n) io) as [i|]; [|discriminate].
   destruct (i_ref i) as [r|]; [|discriminate]. reflexivity.
@@ -169,11 +154,8 @@ Qed.
 Lemma raw_key_wf io p : (forall i, In i io -> asg_ok i) -> wf_pin io p = true ->
   exists k, raw_key p = inr k.
 Proof.
-  intros Hio. destruct p as [q b|[n|] q b| | |]; cbn [wf_pin]; try discriminate; intro H; [cbn; eauto|].
-  destruct (find (has_name i_name n) io) as [i|] eqn:Ef; [|discriminate].
-  apply find_has_name_some in Ef as [Hin Hn]. specialize (Hio i Hin). unfold asg_ok in Hio.
-  rewrite Hn in Hio. cbn [raw_key inst_key].
-  destruct (starts_with asg_prefix n); [|eauto]. destruct (Hio eq_refl) as [w ->]. eauto.
+  intros Hio. destruct p as [q b|[n|] q b| | | |]; cbn [wf_pin]; try discriminate; intro H; [cbn; eauto|].
+  cbn [raw_key]. eauto.
 Qed.
 
 Lemma pin_key_wf x io p : (forall i, In i io -> asg_ok i) -> wf_pin io p = true ->
@@ -286,13 +268,13 @@ Qed.
 Lemma cmp_def_refl lo d : wf_def d = true -> cmp_def lo lo d d = Accept.
 Proof.
   unfold wf_def. intro H. split_andb.
-  rename H into Hnp, H4 into Hwp, H3 into Hnc, H2 into Hwc, H1 into Hni, H0 into Hwi.
+  rename H into Hnp, H3 into Hnc, H2 into Hwc, H1 into Hni, H0 into Hwi.
   assert (Hasg : forall i, In i (d_insts d) -> asg_ok i).
   { intros i Hi. apply wf_inst_asg_ok. rewrite forallb_forall in Hwi. apply Hwi. assumption. }
   unfold cmp_def. rewrite !oname_eqb_refl, !Nat.eqb_refl. cbn [check seq].
   rewrite (cmp_each_zip p_name) by (assumption || reflexivity).
   rewrite cmp_zip_refl.
-  2:{ intros p Hp _. apply cmp_port_refl. rewrite forallb_forall in Hwp. apply Hwp. assumption. }
+  2:{ intros p Hp _. apply cmp_port_refl. }
   cbn [seq].
   rewrite (cmp_each_zip c_name) by (assumption || reflexivity).
   rewrite cmp_zip_refl.
@@ -301,7 +283,7 @@ Proof.
   rewrite (cmp_each_zip i_name) by (assumption || reflexivity).
   rewrite cmp_zip_refl.
   2:{ intros i Hi _. apply cmp_inst_refl. apply wf_inst_props_ok. rewrite forallb_forall in Hwi. apply Hwi. assumption. }
-  cbn [seq]. apply cmp_assign_refl. assumption.
+  cbn [seq]. apply cmp_assign_refl.
 Qed.
 
 Lemma cmp_lib_refl l : wf_lib l = true -> cmp_lib l l = Accept.
